@@ -372,6 +372,14 @@ def run(run):
     lon_g, lat_g = ("sym", g.params()[2]), ("sym", g.params()[1])
     coords = [e.term for e in rg.events if e.kind == "call" and e.term[1] == ("sym", "toast_tile_get_coords")]
     if not coords:
+        # the grid may come through a local helper wrapped around toast_tile_get_coords (e.g. one that remembers the last grid:
+        # whether that is sound is the memo rule's business)
+        for e in rg.events:
+            if e.kind == "call" and e.term[1][0] == "sym":
+                h = project.funcs.get(T + "." + e.term[1][1])
+                if h is not None and any((dotted(c.func) or "") == "toast_tile_get_coords" for c in own_calls(h.node)):
+                    coords.append(e.term)
+    if not coords:
         run.undecided("C12.R1", g, None, "pixel lookup does not fetch the tile's pixel grid", kind="no-grid")
         return
     G = ("item", coords[0], 0)
